@@ -1,0 +1,20 @@
+//go:build verif
+
+package cdc
+
+// Contracts for govc (comment-only; compiled only with -tags verif). Property C25.
+//
+// mainLoop, batch case: the key under which a batch is stored in the disk queue is the HIGHEST log
+// index among the groups of the batch (flush markers carry index 0), because "key <= high
+// watermark" is what pruning, the leader's send loop and restart treat as "everything in this batch
+// was delivered". The batch is acknowledged (req.Close) only after the enqueue was attempted.
+//@ func (*Service) mainLoop
+//@   requires [recv] s != nil
+//@   assigns **
+//@   ghost var enq bool = false
+//@   assume @recv:s.batcher.C: [queue-emits-non-nil-requests-C24] result != nil
+//@   loop 1 invariant [none] true
+//@   loop 2 invariant [hi-is-max-so-far] hiIdx >= 0 && (forall j int :: (0 <= j && j < i) ==> req.Objects[j].Index <= hiIdx) && (hiIdx == 0 || (exists j int :: 0 <= j && j < i && req.Objects[j].Index == hiIdx))
+//@   assert before @cdcjson.MarshalToEnvelopeJSON: [key-is-highest-index] (forall j int :: (0 <= j && j < len(req.Objects)) ==> req.Objects[j].Index <= hiIdx) && (hiIdx == 0 || (exists j int :: 0 <= j && j < len(req.Objects) && req.Objects[j].Index == hiIdx))
+//@   assert @s.fifo.Enqueue: [enqueue-under-that-key] arg0 != nil && arg0.Index == hiIdx
+//@   ghost update @s.fifo.Enqueue: enq = true
